@@ -44,11 +44,18 @@ def oracle_wake(ctx, c, ir):
             e = abs(float(got) - exp)
             worst = max(worst, e)
             if e > float(tol):
-                ctx.violation("impl-oracle", "wakePotential() differs from scaling * (direct DFT convolution) read at bucket*spacing+x",
-                              case=c.replay(), observed=dict(b=b, x=x, value=float(got)), expected=dict(value=exp, tol=float(tol)),
-                              sig=dict(kind="wake", clause="convolution"))
+                k = c.seq[1] if getattr(c, "seq", None) is not None else 0
+                ctx.violation("impl-oracle", "wakePotential() differs from scaling * (direct DFT convolution) read at bucket*spacing+x"
+                              + (" on call %d on the same object (earlier calls with other profiles; call 1 of this object %s)"
+                                 % (k + 1, "agreed" if getattr(c.seq[0], "first_ok", None) else "differed too") if k else ""),
+                              case=c.replay(), observed=dict(b=b, x=x, value=float(got), call=k + 1), expected=dict(value=exp, tol=float(tol)),
+                              sig=dict(kind="wake", clause="convolution", later_call=k > 0))
+                if getattr(c, "seq", None) is not None and k == 0:
+                    c.seq[0].first_ok = False
                 return False
     c.oracle_ratio = worst / float(U * cond * abs(ref))
+    if getattr(c, "seq", None) is not None and c.seq[1] == 0:
+        c.seq[0].first_ok = ok
     return ok
 
 
@@ -144,16 +151,37 @@ def run(ctx, only=None):
                 "gauss/narrow. Streams: exact (padded buffer, read-back index, getter, nmax: bit equality), tolerance (padded wake, "
                 "wake, scaling: K*2^-24*cond, K = 4 log2 N + 8, cond = (|Z_0|+2 sum_{0<k<N/2}|Z_k|) * sum|p|). Oracles on the "
                 "implementation alone: double-precision direct DFT, placement, scaling formula, linearity, shift, half spectrum. "
+                "Strengthening (seeds C06-G, C07-H): impedances with EXACT zeros (given on the half range only, band-limited, leading zeros, "
+                "stop band, pass band, only the N/2 boundary cells, single cells) in about half of the cases; layouts numbered as main() does for "
+                "filling patterns ending in empty entries (lowest filled bucket above 0), trains reaching the end of the padded range, a profile "
+                "kind of its own per bunch; and sequences of 2-3 wakePotential() calls on ONE object with changing profiles, every call judged by "
+                "the direct-DFT oracle (and, for 3 sequences, by the extracted model). "
                 "Every case is non-trivial (non-zero profile, non-constant impedance).")
     coq = vp_coq.full_check("C06", ctx, fams=("dft",))
     sizes = dc.QUICK_SIZES if ctx.quick() else dc.THOROUGH_SIZES
     msizes = [N for N in sizes if N <= (169 if ctx.quick() else 256)]
-    mcases = dc.gen_wake_cases(ctx, 16 if ctx.quick() else 160, msizes, prefix="m")
+    mcases = dc.gen_wake_cases(ctx, 10 if ctx.quick() else 120, msizes, prefix="m")
     ocases = dc.gen_wake_cases(ctx, 260 if ctx.quick() else 5000, sizes, prefix="w")
     groups = dc.gen_relation_groups(ctx, 90 if ctx.quick() else 2000, sizes)
+    # several calls on ONE object: the statement holds for every call (C06_generated_wake_is_convolution is for every history)
+    mseqs = dc.gen_wakeseq_cases(ctx, 3 if ctx.quick() else 20, [N for N in msizes if N <= 101], prefix="ms")
+    oseqs = dc.gen_wakeseq_cases(ctx, 140 if ctx.quick() else 2500, sizes, prefix="s")
     allc = mcases + ocases + [c for g in groups for c in g["cases"]]
-    ir = dc.run_impl(ctx, "".join(c.impl_text("wake") for c in allc))
+    ir = dc.run_impl(ctx, "".join(c.impl_text("wake") for c in allc), allc, "wake")
     ctx.log("implementation ran %d wake cases" % len(allc))
+    sr = dc.run_impl(ctx, "".join(c.impl_text("wakeseq") for c in mseqs + oseqs), mseqs + oseqs, "wakeseq")
+    ncalls = 0
+    mcalls, ocalls = [], []
+    for lst, seqs in ((mcalls, mseqs), (ocalls, oseqs)):
+        for q in seqs:
+            for k in range(len(q.calls)):
+                ck = q.call_case(k)
+                ir[ck.cid] = dc.call_record(sr[q.cid], k)
+                lst.append(ck)
+                ncalls += 1
+    ctx.log("implementation ran %d sequences of wakePotential() calls on one object (%d calls)" % (len(mseqs) + len(oseqs), ncalls))
+    mcases = mcases + mcalls
+    ocases = ocases + ocalls
     mr = dc.run_model(ctx, [c.model_wake_text(ir[c.cid]) for c in mcases])
     ctx.log("model ran %d wake cases" % len(mcases))
     dis = []
@@ -172,13 +200,21 @@ def run(ctx, only=None):
         ctx.case_done(("wake", c.cid), True)
         # the cell the loop i < nmax/2 never writes must stay zero in a fresh object (theorem hypothesis fresh_top)
         if ir[c.cid]["top"] != [0, 0]:
-            ctx.violation("impl-oracle", "_wakelosses[nmax/2] is not zero in a fresh object", case=c.replay(),
-                          observed=[str(v) for v in ir[c.cid]["top"]], sig=dict(kind="wake", clause="fresh-top"))
+            if getattr(c, "seq", None) is not None and c.seq[1] > 0:
+                # after an earlier call: hypothesis (B) of the generated-program theorems (what the inverse transform leaves
+                # in the never rewritten cell); a failing input only together with a wrong wake, which the oracle above decides
+                dis.append(dict(case=c.replay(), detail=[dict(what="_wakelosses[nmax/2] is not zero after call %d on one object (hypothesis (B))" % c.seq[1],
+                                                               top=[str(v) for v in ir[c.cid]["top"]])],
+                                sig=dict(kind="wake", stage="correspondence", what="hypB-top")))
+            else:
+                ctx.violation("impl-oracle", "_wakelosses[nmax/2] is not zero in a fresh object", case=c.replay(),
+                              observed=[str(v) for v in ir[c.cid]["top"]], sig=dict(kind="wake", clause="fresh-top"))
     oracle_groups(ctx, groups, ir)
     dis += run_pow2(ctx, pow2_cases(ctx, 200 if ctx.quick() else 5000))
     program_padding(ctx)
     ctx.sample(mcases[0].describe())
     ctx.sample(ocases[0].describe())
+    ctx.sample(dict(sequence_of_calls=len(oseqs[0].calls), **oseqs[0].describe()))
     ctx.sample(dict(relation=groups[0]["kind"], **groups[0]["cases"][0].describe()))
     ctx.extra["correspondence_disagreements"] = len(dis)
     ctx.extra["max_error_over_2^-24cond_model"] = max(ratios) if ratios else None
@@ -206,13 +242,32 @@ def replay(ctx, rp):
         ctx.case_done(("program-padding", "replay"), True)
         ctx.rule = "replay of one recorded program-level padding case"
         return
-    if c.get("kind") != "wake":
+    if c.get("kind") not in ("wake", "wakeseq"):
         return run(ctx)
     fx = lambda l: [float.fromhex(v) for v in l]
     case = dc.DftCase(c["id"], c["N"], c["n"], c["spacing"], c["buckets"], fx(c["zre"]), fx(c["zim"]),
                       [fx(p) for p in c["prof"]], {k: float.fromhex(v) for k, v in c["axes"].items()},
                       {k: float.fromhex(v) for k, v in c["phys"].items()}, note=c.get("note", ""))
     coq = vp_coq.full_check("C06", ctx, fams=("dft",))
+    if c["kind"] == "wakeseq":
+        # the recorded sequence of calls on one object; every call judged by the oracle and the model
+        case.calls = [[fx(p) for p in profs] for profs in c["calls"]]
+        case.between = c.get("between")
+        sr = dc.run_impl(ctx, case.impl_text("wakeseq"))
+        cks = [case.call_case(k) for k in range(len(case.calls))]
+        ir = {ck.cid: dc.call_record(sr[case.cid], k) for k, ck in enumerate(cks)}
+        mr = dc.run_model(ctx, [ck.model_wake_text(ir[ck.cid]) for ck in cks])
+        dis = []
+        for ck in cks:
+            d = dc.compare_wake(ck, ir[ck.cid], mr[ck.cid])
+            if d:
+                dis.append(dict(case=ck.replay(), detail=[dict(what=w, **x) for w, x in d[:3]], sig=dict(kind="wake", stage="correspondence", what=d[0][0])))
+            oracle_wake(ctx, ck, ir[ck.cid])
+            ctx.case_done(("wake", ck.cid), True)
+        ctx.rule = "replay of one recorded sequence of wakePotential() calls on one object"
+        ctx.sample(case.describe())
+        conclude(ctx, coq, dis)
+        return
     ir = dc.run_impl(ctx, case.impl_text("wake"))
     mr = dc.run_model(ctx, [case.model_wake_text(ir[case.cid])])
     d = dc.compare_wake(case, ir[case.cid], mr[case.cid])
